@@ -257,14 +257,14 @@ def gen_e2e(rng, long):
             r = rng.random()
             if r < 0.3: steps.append([0, rng.randint(0, 5)])
             elif r < 0.45: steps.append([1, rng.randint(0, 7)])
-            elif r < 0.62: steps.append([2, rng.choice([0, 0, 1, 1, 2])])
+            elif r < 0.62: steps.append([2, rng.choice([0, 0, 1, 1, 2]) + 3 * rng.choice([0, 1])])
             elif r < 0.72: steps.append([3, rng.choice([0, 1, 3, 5, 9])])
             elif r < 0.8: steps.append([4])
             elif r < 0.92: steps.append([5])
             elif r < 0.97: steps.append([6])
             else: steps.append([7])
         if rng.random() < 0.7:   # make sure repacking happens: forget an old snapshot, prune, restore
-            steps += [[1, 0], [2, rng.choice([0, 1, 2])], [5]]
+            steps += [[1, 0], [2, rng.choice([0, 1, 2]) + 3 * rng.choice([0, 1, 1])], [5]]
     dmg_p = rng.choice([0, 200, 500, 1000, 1000])
     dmg_cfg = 1 if rng.random() < 0.4 else 0
     trunc = 1 if rng.random() < 0.5 else 0
@@ -352,6 +352,7 @@ def e2e_stage(ctx, impl, model, cov):
     ro = run_lines(model, rep_lines, "repair", ctx.bdir) if (model and rep_lines) else []
     k = 0
     e2e_samples = []
+    warm_stats, warm_lines, warm_where = {}, [], []
     for line, d in zip(cases, parsed):
         if d is None: continue
         t = [int(x) for x in line.split()]
@@ -361,7 +362,7 @@ def e2e_stage(ctx, impl, model, cov):
         wmode = t[p + 4] if len(t) > p + 4 else 0
         rejects = t[1]
         hist["warm_up_mode_%d" % wmode] = hist.get("warm_up_mode_%d" % wmode, 0) + (1 if rejects else 0)
-        if any(st["step"] == [2, 2] for st in d["steps"]): hist["histories_with_mark_only_prune"] = hist.get("histories_with_mark_only_prune", 0) + 1
+        if any(st["step"][0] == 2 and st["step"][1] % 3 == 2 for st in d["steps"]): hist["histories_with_mark_only_prune"] = hist.get("histories_with_mark_only_prune", 0) + 1
         case = {"line": line}
         faulted = fail_at and fail_at <= d["hist_len"]
         hist["with_fault"] += 1 if faulted else 0
@@ -405,6 +406,24 @@ def e2e_stage(ctx, impl, model, cov):
         # that every command succeeds (results equal to the single store, repair restores the hot store)
         if rejects and wmode != 1 and (d["unwarmed_reads_history"] or d["unwarmed_reads_repair"]):
             viol.append(("a command read a cold file without warming it up first (the cold store rejected %d reads)" % (d["unwarmed_reads_history"] + d["unwarmed_reads_repair"]), case, d["steps"], None))
+        # per command: the packs warmed (W) vs. the packs read from the cold store (R), and the ordered list of
+        # what reached the cold store, to be judged by the extracted disciplined_from / cold_run
+        if rejects:
+            cmds = [(step_names[st["step"][0]], st["cold"]) for st in d["steps"]] + [("repair_hotcold", d["repair_cold"])]
+            for nm, cold in cmds:
+                ev = cold["ev"]
+                R = {i for (kd, ft, i, sv) in ev if kd == 1 and ft == 4}
+                W = set(cold["listed"]) if wmode == 2 else {i for (kd, ft, i, sv) in ev if kd in (0, 2) and ft == 4}
+                ws = warm_stats.setdefault(nm, {"commands": 0, "commands_reading_cold_packs": 0, "packs_warmed": 0, "cold_packs_read": 0, "cold_reads_of_other_files": 0})
+                ws["commands"] += 1; ws["commands_reading_cold_packs"] += 1 if R else 0
+                ws["packs_warmed"] += len(W); ws["cold_packs_read"] += len(R)
+                ws["cold_reads_of_other_files"] += len({(ft, i) for (kd, ft, i, sv) in ev if kd == 1 and ft != 4})
+                if not R <= W:
+                    viol.append(("%s reads packs from the cold store that it did not warm up first (R is not a subset of W)" % nm, case,
+                                 {"command": nm, "packs_read_from_cold": sorted(R), "packs_warmed": sorted(W), "not_warmed": sorted(R - W), "warm_up_mode": wmode}, None))
+                if wmode != 2 and ev:
+                    warm_lines.append("%d %d %s" % (wmode, len(ev), " ".join("%d %d %d %d" % tuple(e) for e in ev)))
+                    warm_where.append((line, nm))
         if model:
             h, full = lo[k], lo[k + 1]; rmodel = ro[k // 2]; k += 2
             hist["prefixes_checked_by_inv_b"] += d["hist_len"]
@@ -443,6 +462,18 @@ def e2e_stage(ctx, impl, model, cov):
                 mism.append((line, d["state_after_repair"], rmodel))
         if len(e2e_samples) < 2:
             e2e_samples.append({"case": line, "steps": [(s["step"], s["hc"]) for s in d["steps"]], "repair": d["repair"], "removed_hot": d["removed_hot"], "truncated": d["truncated"]})
+    # the recorded cold-store event lists against the extracted model: discipline (every read preceded by a warm-up
+    # of that file, per command) and the served / rejected flag of every read as cold_run predicts it
+    if model and warm_lines:
+        wo = run_lines(model, warm_lines, "warm", ctx.bdir)
+        for (line, nm), l, o in zip(warm_where, warm_lines, wo):
+            if "disc=1" not in o:
+                viol.append(("%s: a file is read from the cold store before / without a warm-up request for it (extracted disciplined_from false on the recorded event list)" % nm,
+                             {"line": line}, {"command": nm, "events(mode n (kind ft id served)*)": l, "model": o}, None))
+            elif "acc=1" not in o:
+                mism.append((line, "%s: served/rejected flags of the cold reads: %s" % (nm, l), o))
+    hist["warm_event_lists_checked"] = len(warm_lines)
+    cov["warm_up_per_command"] = warm_stats
     cov["e2e"] = {"cases": len(cases), "distribution": hist, "samples": e2e_samples, "model_impl_mismatches": len(mism),
                   "rule": "e2e case = history of 4-15 commands (backup of one of 6 overlapping source variants, forget, prune instant/two-phase with max-unused 0 so that packs are repacked, config change, check, restore + comparison with the source, repair index --read-all) run on hot+cold (every inner mutating call logged, cold store rejects un-warmed reads in 85% of the cases, the warm set is cleared before every command, 30% of the cases with one injected inner failure) and on a single store; then each hot file removed with probability 0/0.2/0.5/1, hot config removed in 40%, one remaining hot file cut to half in 50%, then open_only_cold + init_hot + repair_hotcold_except_packs + repair_hotcold_packs + check"}
     cov["evaluations"] = cov.get("evaluations", 0) + len(cases)
